@@ -2,6 +2,7 @@
 from lib import *
 from props.shared import *
 import rnum
+from props import numrules
 
 EXPLANATION = ("R-NUM abstract interpretation of the AtomicDuration encode/decode bodies (Some(d) never encodes to the None sentinel, "
                "the stored value rounds up, decode unit = encode unit, no wrapping conversion) and of TimeOutList::add_timer's "
@@ -16,133 +17,7 @@ AD = "may::sync::atomic_dur::AtomicDuration"
 TL = "may::timeout_list"
 
 def check(ctx):
-    it = rnum.Interp(ctx.prog)
-    # ---- R-NUM encode
-    enc = {}
-    for fn in ("new", "store"):
-        fid = AD + "::" + fn
-        f = ctx.fn("R-NUM", fid, "encode")
-        if f is None: continue
-        # the stored value
-        val_op = None; site = None
-        for pt in f.points():
-            if not f.is_term(pt): continue
-            t = f.node(pt)
-            if t["t"] != "call": continue
-            nm = callee_name(t) or ""
-            if nm.endswith("Atomic::new") and fn == "new": val_op = t["args"][0]; site = pt
-            if nm.endswith("Atomic::store") and fn == "store" and receiver_leaf(f, t) == AD + ".0": val_op = t["args"][1]; site = pt
-        if val_op is None:
-            ctx.missing("R-NUM", fid, "encode", "the atomic initialisation/store of the encoded value was not found"); continue
-        o = simplify(trace_operand(f, val_op))
-        # resolve through a local helper
-        g = f
-        if o[0] == "call" and o[2] in ctx.prog.fns:
-            g = ctx.prog.fns[o[2]]; ctx.fns_touched.add(g.id)
-            alts = it.return_alternatives(g)
-        elif o[0] == "phi":
-            alts = [simplify(a) for a in o[2]]
-        else:
-            alts = [o]
-        consts = [a for a in alts if a[0] == "const"]
-        somes = [a for a in alts if a[0] != "const"]
-        none_zero = len(consts) == 1 and rnum.const_of(consts[0]) == 0
-        ctx.ob("R-NUM", fid, "encode/none-is-zero", none_zero, "None encodes to the sentinel 0" if none_zero else "None no longer encodes to the single constant 0: %s" % [fmt_origin(c) for c in consts], g.where())
-        if len(somes) != 1:
-            ctx.ob("R-NUM", fid, "encode/decided", False, "UNDECIDED: expected one Some(d) alternative for the encoded value, found %d (%s)" % (len(somes), [fmt_origin(s) for s in somes]), g.where())
-            continue
-        it.notes = []
-        v = it.eval(g, somes[0])
-        if v is None:
-            ctx.ob("R-NUM", fid, "encode/decided", False, "UNDECIDED (failing closed): the Some(d) encoding `%s` uses an operation outside the interpreter's transfer functions" % fmt_origin(somes[0]), g.where())
-            continue
-        ctx.ob("R-NUM", fid, "encode/decided", True, "Some(d) encodes to %s with n = d.as_nanos()" % v, g.where(), nontrivial=False)
-        enc[fn] = v
-        A_ok = v.k >= 1 or v.a >= v.b
-        ctx.ob("R-NUM", fid, "encode/A-some-never-none", A_ok,
-               "(A) Some(d) never encodes to the None sentinel: %s ≥ 1 for every d ≥ 0" % v if A_ok else
-               "(A) Some(d) encodes to 0 = None for d < %d ns (incl. Duration::ZERO): such a timed wait never times out (%s)" % (v.b - v.a, v), g.where())
-        B_ok = v.a >= v.b - 1
-        ctx.ob("R-NUM", fid, "encode/B-rounds-up", B_ok,
-               "(B) the stored count rounds up: count × %d ns ≥ d for every d" % v.b if B_ok else
-               "(B) the stored count rounds DOWN (%s): e.g. d = %d ns is stored as %d × %d ns, so the wait can return before d elapsed" % (v, v.b + v.b // 2, 1, v.b), g.where())
-        ctx.ob("R-NUM", fid, "encode/no-wrap", not v.trunc, "the conversion to the atomic's integer type saturates (no wrap-around for huge durations)" if not v.trunc else
-               "the encoded value is narrowed with a wrapping cast (%s): a huge duration wraps to a short one and fires early" % "; ".join(it.notes), g.where())
-    # ---- decode
-    dec = {}
-    for fn in ("get", "take"):
-        fid = AD + "::" + fn
-        f = ctx.prog.fn(fid)
-        if f is None:
-            if fn == "take": ctx.missing("R-NUM", fid, "decode", "AtomicDuration::take not found")
-            continue
-        ctx.fns_touched.add(fid)
-        unit = None; ok_src = False; site = None
-        for pt in f.points():
-            if not f.is_term(pt): continue
-            t = f.node(pt)
-            if t["t"] != "call": continue
-            nm = callee_name(t) or ""
-            m = nm.rsplit("::", 1)[-1]
-            if (nm.startswith("std::time::Duration::") or nm.startswith("core::time::Duration::")) and m in rnum.FROM_UNITS:
-                unit = rnum.FROM_UNITS[m]; site = pt
-                o = simplify(trace_operand(f, t["args"][0]))
-                while o[0] == "cast": o = o[1]
-                ok_src = o[0] == "call" and re.fullmatch(A("(load|swap)"), o[2] or "") is not None
-        if unit is None:
-            ctx.ob("R-NUM", fid, "decode/decided", False, "UNDECIDED: no Duration::from_* construction found in %s" % fid, f.where()); continue
-        ctx.ob("R-NUM", fid, "decode/value-unchanged", ok_src, "the decoded count is the loaded value itself" if ok_src else "the decoded count is not the plain loaded value (arithmetic in decode is outside the rule)", f.where(site))
-        dec[fn] = unit
-        # 0 -> None
-        ctx.guarded(fid, Agg(r"(std|core)::option::Option", "None", transitive=False), lambda a: a.kind == "val" and a.eq and a.vals == (0,), "decode/zero-is-none:" + fn,
-                    "%s returns None exactly for the sentinel" % fn, rule="R-NUM", pred_label="edge `value == 0`")
-    for fn, v in enc.items():
-        for dn, unit in dec.items():
-            ctx.ob("R-NUM", AD, "C-unit-agrees:%s/%s" % (fn, dn), v.b == unit,
-                   "(C) %s encodes in units of %d ns and %s decodes in units of %d ns" % (fn, v.b, dn, unit) if v.b == unit else
-                   "(C) unit mismatch: %s encodes in units of %d ns but %s decodes in units of %d ns (the timeout is %s by a factor of %g)" %
-                   (fn, v.b, dn, unit, "stretched" if unit > v.b else "cut short", max(unit, v.b) / min(unit, v.b)), None)
-    # consumers of the encoding
-    users = []
-    for path, a in ctx.prog.adts.items():
-        for var in a["variants"]:
-            for fld in var["fields"]:
-                if "AtomicDuration" in fld["t"]: users.append("%s.%s" % (path, fld["n"]))
-    ctx.ob("R-WHO", AD, "consumers", len(users) >= 5, "fields holding an encoded timeout: %s" % sorted(users), None, nontrivial=len(users) > 0)
-    # ---- add_timer arithmetic
-    AT = TL + "::TimeOutList::add_timer"
-    f = ctx.fn("R-NUM", AT, "interval")
-    if f is not None:
-        iv = None; tm = None; site = None
-        for pt in f.points():
-            n = f.node(pt)
-            if not f.is_term(pt) and n["s"] == "=" and n["rv"]["r"] == "agg" and n["rv"].get("ak") == "adt" and norm(n["rv"]["adt"]) == TL + "::TimeoutData":
-                names = n["rv"]["fields"]; tm = simplify(trace_operand(f, n["rv"]["ops"][names.index("time")])); site = pt
-        if tm is None:
-            ctx.missing("R-NUM", AT, "interval", "construction of TimeoutData not found")
-        else:
-            # time = now() (+|saturating_add) interval ; interval = conv(dur.as_nanos())
-            sat = tm[0] == "call" and (tm[2] or "").endswith("saturating_add")
-            plain = tm[0] == "bin" or (tm[0] == "field" and tm[2] == "(tuple)")
-            ops = None
-            if sat: ops = [simplify(trace_operand(f, a)) for a in f.term(tm[1])["args"]]
-            elif plain:
-                b = tm
-                while b[0] == "field": b = simplify(b[1])
-                ops = [simplify(b[2]), simplify(b[3])]
-            ctx.ob("R-NUM", AT, "expiry-saturates", sat, "expiry = now().saturating_add(interval): no overflow for huge durations" if sat else
-                   "expiry is computed with a plain `+` (%s): a huge duration overflows (debug: panic on the runtime thread; release: wraps and fires early)" % fmt_origin(tm), f.where(site))
-            ivv = None
-            if ops:
-                for o in ops:
-                    if not (o[0] == "call" and o[2] == TL + "::now"):
-                        it.notes = []; ivv = it.eval(f, o); ivo = o
-            if ivv is None:
-                ctx.ob("R-NUM", AT, "interval-decided", False, "UNDECIDED (failing closed): the timer interval is not derived from the duration by operations the interpreter understands", f.where(site))
-            else:
-                ctx.ob("R-NUM", AT, "interval-exact", ivv.a == 0 and ivv.b == 1 and ivv.k == 0, "the timer interval is d.as_nanos() (%s)" % ivv, f.where(site))
-                ctx.ob("R-NUM", AT, "interval-no-wrap", not ivv.trunc, "the u128 → u64 conversion of the interval saturates" if not ivv.trunc else
-                       "the interval is narrowed with a wrapping cast (%s): durations ≥ 2^64 ns wrap to short ones and fire early" % "; ".join(it.notes), f.where(site))
+    numrules.duration_rules(ctx)
     # ---- deadline loops
     now_ge = lambda a: a.kind == "call" and a.truth is True and re.fullmatch(r".*PartialOrd.*::ge|std::cmp::PartialOrd::ge", a.name or "") is not None
     RMU = "may::sync::mpsc::Receiver::recv_max_until"
